@@ -1,6 +1,6 @@
 import DaeVerif.C11.Model
 import DaeVerif.Common.Proto
-/-! Line-protocol driver for C11.  Three op families (see the harness files
+/-! Line-protocol driver for C11.  Op families (bl/blx, trie/trieall, ac, alpha, cc, new/add/build/q/qall) (see the harness files
 `harness/overlay/{common/bitlist,pkg/trie,component/routing/domain_matcher}/c11_test.go`):
 
 * `bl <unit> <op>…`                         CompactBitList script (stateless line)
@@ -181,6 +181,7 @@ def parseHits (hits : String) : Option (List Nat) :=
 def handleSess (s : Sess) (line : String) : Sess × String :=
   match words line with
   | "bl" :: rest => (s, handleBl rest)
+  | "blx" :: rest => (s, handleBl rest)      -- unit size 0 / out-of-range values: diagnostic class
   | "trie" :: rest => (s, handleTrie rest)
   | "trieall" :: rest => (s, handleTrieAll rest)
   | "ac" :: rest => (s, handleAc rest)
